@@ -35,9 +35,12 @@ def field_stores(facts):
                 p = st["p"]
                 if "p" in p:
                     chain = [e for e in p["p"] if isinstance(e, dict) and "f" in e and e.get("a")]
+                    # root: "local" for a store into a local value of the function itself (`let mut c = ..; c.f = v`), "mem" for a
+                    # store through a reference / into a parameter
+                    root = "local" if (p["l"] > fn.argc and p["l"] != 0 and "*" not in p["p"]) else "mem"
                     for depth, e in enumerate(chain):
                         out.append(dict(fn=fn, block=bi, stmt=si, line=st["l"], adt=e["a"], field=e["f"],
-                                        kind="assign", last=(depth == len(chain) - 1), rv=st["rv"]))
+                                        kind="assign", last=(depth == len(chain) - 1), rv=st["rv"], root=root))
                     if p["p"] == ["*"]:
                         ty = _strip_ref(fn.locals[p["l"]]["t"])
                         out.append(dict(fn=fn, block=bi, stmt=si, line=st["l"], adt=ty, field="*",
